@@ -75,13 +75,23 @@ def invariants(D):
                 return ("self-joined", "%s %d joins point %d with itself" % (kind[:-1], k, e[0]))
             key = (min(e[0], e[1]), max(e[0], e[1])) if kind == "segs" else (e[0], e[1], round(e[2], 9))
             if key in seen:
-                return ("duplicate", "%s %d duplicates an earlier one between points %d and %d" % (kind[:-1], k, e[0], e[1]))
+                return ("duplicate-among-arcs" if (kind == "segs" and len(D["arcs"]) >= 5) else "duplicate", "%s %d duplicates an earlier one between points %d and %d" % (kind[:-1], k, e[0], e[1]))
             seen.add(key)
     P = [(n[0], n[1]) for n in D["nodes"]]
     S = D["segs"]
     for i in range(len(S)):
         for j in range(i + 1, len(S)):
             if len({S[i][0], S[i][1], S[j][0], S[j][1]}) == 4 and proper_crossing(P[S[i][0]], P[S[i][1]], P[S[j][0]], P[S[j][1]]):
+                # a crossing within the snap tolerance of an end point of either line is that end point to the commands (the same rule
+                # as for points next to the end of a line below): lines between points that were placed closer together than the
+                # tolerance of the grown drawing are not split there
+                a_, b_, c_, d_ = P[S[i][0]], P[S[i][1]], P[S[j][0]], P[S[j][1]]
+                den = (b_[0] - a_[0]) * (d_[1] - c_[1]) - (b_[1] - a_[1]) * (d_[0] - c_[0])
+                if den != 0:
+                    tt = ((c_[0] - a_[0]) * (d_[1] - c_[1]) - (c_[1] - a_[1]) * (d_[0] - c_[0])) / den
+                    X = (a_[0] + tt * (b_[0] - a_[0]), a_[1] + tt * (b_[1] - a_[1]))
+                    if min(math.hypot(X[0] - q[0], X[1] - q[1]) for q in (a_, b_, c_, d_)) < tol * 1.5:
+                        continue
                 return ("crossing", "lines %d (%d-%d) and %d (%d-%d) cross without a point at the crossing" % (i, S[i][0], S[i][1], j, S[j][0], S[j][1]))
     for i, s in enumerate(S):
         for k in range(N):
@@ -92,6 +102,10 @@ def invariants(D):
             if min(math.hypot(P[k][0] - P[s[0]][0], P[k][1] - P[s[0]][1]), math.hypot(P[k][0] - P[s[1]][0], P[k][1] - P[s[1]][1])) < tol * 1.5:
                 continue
             if d < tol * 0.1 and 1e-9 < t < 1 - 1e-9:
+                if D["arcs"] and min(math.hypot(P[k][0] - P[s[0]][0], P[k][1] - P[s[0]][1]), math.hypot(P[k][0] - P[s[1]][0], P[k][1] - P[s[1]][1])) < tol * 3:
+                    # (own key: a known finding lives here - a point, typically the crossing with an arc, between 1.5 and 3 tolerances from the end of a line)
+                    return ("point-on-line-near-end", "point %d at (%.12g, %.12g) lies inside line %d (%d-%d), %.3g from its end (snap tolerance %.3g), and the line is not split there"
+                            % (k, P[k][0], P[k][1], i, s[0], s[1], min(math.hypot(P[k][0] - P[s[0]][0], P[k][1] - P[s[0]][1]), math.hypot(P[k][0] - P[s[1]][0], P[k][1] - P[s[1]][1])), tol))
                 return ("point-on-line", "point %d at (%.12g, %.12g) lies inside line %d (%d-%d), which is not split there" % (k, P[k][0], P[k][1], i, s[0], s[1]))
     for k, lb in enumerate(D["labels"]):
         for i in range(N):
@@ -102,6 +116,9 @@ def invariants(D):
             if d < tol * 0.1:
                 return ("label-on-line", "block label %d at (%.12g, %.12g) sits on line %d" % (k, lb[0], lb[1], i))
     return None
+
+
+REBUILD_OPS = ("movetranslate", "copytranslate", "mirror", "moverotate", "copyrotate", "scale")
 
 
 def canon(D):
@@ -224,6 +241,24 @@ def main(argv):
                     m1 = 1 if mode == 4 else mode
                     dx, dy = rng.choice([0.5, 1.0, -1.5, 0.0, 3.0]), rng.choice([0.5, -1.0, 2.0, 0.0])
                     op = rng.choice(["movetranslate", "copytranslate", "mirror", "moverotate", "copyrotate", "scale"])
+                    if mode == 0 and sel and rng.random() < 0.5:
+                        # near-coincident landing: the (last copy of the) first selected point ends 3e-7 beside an existing point or beside the
+                        # middle of the stretch between two existing points - inside the snap tolerance of any drawing wider than 0.3 units,
+                        # far above rounding: it has to merge with the point / split the line there
+                        tgt = rng.choice(known_pts)
+                        if rng.random() < 0.5:
+                            o = rng.choice(known_pts)
+                            tgt = ((tgt[0] + o[0]) / 2, (tgt[1] + o[1]) / 2)
+                        off = rng.choice([(3e-7, 0.0), (0.0, -3e-7), (0.0, 0.0)])
+                        ncp = rng.randint(1, 3)
+                        op = rng.choice(["movetranslate", "copytranslate"])
+                        div = ncp if op == "copytranslate" else 1
+                        dx, dy = (tgt[0] + off[0] - sel[0][0]) / div, (tgt[1] + off[1] - sel[0][1]) / div
+                        cmds.append("%smovetranslate(%s,%s,%d)" % (pre, n17(dx), n17(dy), m1) if op == "movetranslate"
+                                    else "%scopytranslate(%s,%s,%d,%d)" % (pre, n17(dx), n17(dy), ncp, m1))
+                        emit(op, cmds, dict(mode=m1, sel=sel, dx=dx, dy=dy, near_landing=True))
+                        stats["near_coincident_landings"] = stats.get("near_coincident_landings", 0) + 1
+                        continue
                     if op == "movetranslate":
                         cmds.append("%smovetranslate(%s,%s,%d)" % (pre, n17(dx), n17(dy), m1))
                     elif op == "copytranslate":
@@ -268,6 +303,24 @@ def main(argv):
                 ck.case((t, k, desc, len(D["nodes"]), len(D["segs"])), nontrivial=len(D["nodes"]) > 2,
                         sample=dict(operation=desc, points=len(D["nodes"]), lines=len(D["segs"]), arcs=len(D["arcs"])) if (t == 0 and k in (5, 20)) else None)
                 bad = invariants(D)
+                if not bad and desc in REBUILD_OPS and len(D["nodes"]) > 1 and canon(D) != canon(prev):
+                    # (an operation that changed nothing - empty selection, degenerate mirror line - returns before the rebuild)
+                    # these operations rebuild the whole drawing with ONE tolerance, 1e-6 of the bounding-box diagonal of all points before
+                    # merging (at least that of the result): afterwards no two points are closer than the snap tolerance of the drawing
+                    Pn = [(n[0], n[1]) for n in D["nodes"]]
+                    diag = math.hypot(max(q[0] for q in Pn) - min(q[0] for q in Pn), max(q[1] for q in Pn) - min(q[1] for q in Pn))
+                    srt = sorted(range(len(Pn)), key=lambda i: Pn[i])
+                    for ii, i in enumerate(srt):
+                        for j in srt[ii + 1:]:
+                            if Pn[j][0] - Pn[i][0] > 1e-6 * diag:
+                                break
+                            dd = math.hypot(Pn[i][0] - Pn[j][0], Pn[i][1] - Pn[j][1])
+                            if dd < 0.999e-6 * diag:
+                                bad = ("snap-after-rebuild", "points %d (%.12g, %.12g) and %d (%.12g, %.12g) are %.3g apart, the snap tolerance of the drawing is %.3g"
+                                       % (i, Pn[i][0], Pn[i][1], j, Pn[j][0], Pn[j][1], dd, 1e-6 * diag))
+                                break
+                        if bad:
+                            break
                 if not bad and desc == "addnode" and meta.get("xy"):
                     Pp = [(n[0], n[1]) for n in prev["nodes"]]
                     if len(Pp) < 2:
